@@ -19,20 +19,22 @@ Lemma split_cover_ids t parts : wf_count t = true ->
   concat (map rng parts) = page_range 1 (count_of t) ->
   exists docs, extract_parts t parts = Ok docs /\
     concat (map ids_of docs) = ids_of t /\
-    (Forall xsafe (rpages t) -> concat (map pages_of docs) = pages_of t) /\
+    (Forall xsafe (rpages t) -> concat (map npages_of docs) = npages_of t) /\
     Forall2 part_ok docs parts.
 Proof.
   intros Hwf Hall Hcat. destruct (split_cover t parts Hwf Hall Hcat) as [docs [He [Hc HF]]].
   exists docs. split; [assumption|]. split; [|split; [|exact HF]].
   - rewrite ids_concat, Hc. unfold ids_of, pages_of. rewrite !map_map. apply map_ext. apply xview_id.
-  - intros Hs. rewrite Hc. apply map_xview_safe; [apply resolve_own|assumption].
+  - intros Hs. unfold npages_of.
+    rewrite <- (map_map pages_of (map norm_view)), <- concat_map, Hc. unfold pages_of.
+    apply map_xview_safe; [apply resolve_own|assumption].
 Qed.
 
 Lemma split_span_main t span : wf_count t = true -> 1 <= span ->
   exists parts docs,
     span_parts (count_of t) span = Ok parts /\ split_span t span = Ok docs /\
     concat (map ids_of docs) = ids_of t /\
-    (Forall xsafe (rpages t) -> concat (map pages_of docs) = pages_of t) /\
+    (Forall xsafe (rpages t) -> concat (map npages_of docs) = npages_of t) /\
     Forall2 part_ok docs parts.
 Proof.
   intros Hwf Hs.
@@ -46,7 +48,7 @@ Lemma split_along_main t nrs : wf_count t = true -> valid_page_nrs (count_of t) 
   exists parts docs,
     along_parts (count_of t) nrs = Ok parts /\ split_along t nrs = Ok docs /\
     concat (map ids_of docs) = ids_of t /\
-    (Forall xsafe (rpages t) -> concat (map pages_of docs) = pages_of t) /\
+    (Forall xsafe (rpages t) -> concat (map npages_of docs) = npages_of t) /\
     Forall2 part_ok docs parts.
 Proof.
   intros Hwf Hv.
@@ -167,14 +169,11 @@ Definition doc_inh_negrot : tree :=
   Node no_attrs 1 [Node (mkAttrs (Some (-90)) None None false) 1 [Leaf (plain_page 1)]].
 Definition doc_plain : tree := Node no_attrs 1 [Leaf (plain_page 7)].
 
-Lemma split_refuted :
-  (wf_count doc_inh_crop = true /\ exists docs, split_span doc_inh_crop 1 = Ok docs /\
-     concat (map pages_of docs) <> pages_of doc_inh_crop) /\
-  (wf_count doc_inh_negrot = true /\ exists docs, split_span doc_inh_negrot 1 = Ok docs /\
-     concat (map pages_of docs) <> pages_of doc_inh_negrot).
-Proof.
-  split; (split; [reflexivity|]); eexists; (split; [vm_compute; reflexivity|]); vm_compute; congruence.
-Qed.
+(* after the fix of addPage the two documents that used to lose attributes are reproduced exactly *)
+Lemma split_witnesses_fixed :
+  (exists docs, split_span doc_inh_crop 1 = Ok docs /\ concat (map pages_of docs) = pages_of doc_inh_crop) /\
+  (exists docs, split_span doc_inh_negrot 1 = Ok docs /\ concat (map pages_of docs) = pages_of doc_inh_negrot).
+Proof. split; eexists; (split; [vm_compute; reflexivity|]); reflexivity. Qed.
 
 Lemma zip_refuted :
   (exists t, zip_merge doc_plain doc_inh_crop = Ok t /\
